@@ -172,6 +172,7 @@ def rule_w(F):
         raise AnchorMissing("procedure.fun.call in call_native")
     # TaskFailure aggregate with name from Procedure::name
     wrapped = False
+    wrap_sites = []
     for g in [f] + F.closures_of.get(f.short, []):
         gdu = DefUse(g)
         for b in g.blocks:
@@ -190,12 +191,21 @@ def rule_w(F):
                                 nm = callee_names(d[3]["func"])
                                 if any(n.endswith("Procedure::name") for n in nm):
                                     wrapped = True
+                                    wrap_sites.append((g, g.blocks.index(b)))
                                     break
                                 l = op_local(d[3]["args"][0]) if d[3]["args"] else None
                                 continue
                             rv = d[3]["rv"]
                             l = op_local(rv["op"]) if rv["k"] in ("use", "cast") else (rv["place"]["l"] if rv["k"] == "ref" else None)
-    if wrapped:
+    # ... on every path: the error-mapping closure may not hand some errors back as they are
+    partial = [g for g, wb in wrap_sites if g.is_closure and not g.cfg.every_path_passes(0, g.cfg.return_blocks(), {wb})]
+    if wrapped and partial:
+        g = partial[0]
+        res.append(bad("C18.W", "C18/W/call_native/error-wrapped-with-name", g.loc(),
+                       "call_native wraps the host function's error in TaskFailure{name} only on some paths of its error mapping: an error that "
+                       "is passed through as it is (e.g. one that already is a TaskFailure, coming out of a nested run_function) surfaces "
+                       "carrying the name of the inner function, not of the host function that returned it"))
+    elif wrapped:
         res.append(ok("C18.W", "C18/W/call_native/error-wrapped-with-name", f.loc(), "a host error becomes TaskFailure{name: procedure.name(), ..}"))
     else:
         res.append(bad("C18.W", "C18/W/call_native/error-wrapped-with-name", f.loc(), "call_native does not wrap the host function's error in TaskFailure carrying the procedure's name"))
